@@ -39,6 +39,30 @@ def palette_bound(F, S):
                 out.append(ok("R-ORDER", inst, rp.loc(nd["id"]), rp.qn, req, "ImageHeader::Validate and the depth check dominate the allocation"))
             else:
                 out.append(bad("R-ORDER", inst, rp.loc(nd["id"]), rp.qn, req, "allocation is not dominated by the header validation"))
+            # and the size itself is one of the two quantities the header bounds: the used-colour count, or 2^depth
+            from .c05 import alias_defs, resolve
+            from ..through import inline_single_return
+            obj = rp.term(nd["obj"]) if "obj" in nd else None
+            if obj is not None and obj[0] == "mem" and obj[2] == "palette" and nd.get("args"):
+                ih = ("mem", obj[1], "imageHeader")
+                arg = resolve(rp.term(nd["args"][0]), alias_defs(rp))
+                arg = inline_single_return(F, arg)
+                allowed = (("mem", ih, "usedColorMapEntries"), F.method_value(IH + "::CalcMaxIndexedPaletteSize", ih),
+                           F.call_value(IH + "::CalcMaxIndexedPaletteSize", None, (("mem", ih, "bitCount"),)))
+                # a helper choosing between the two
+                def okv(t):
+                    if t in allowed:
+                        return True
+                    if t[0] == "cond":
+                        return okv(t[2]) and okv(t[3])
+                    return False
+                inst2 = "%s::ReadPalette#palette-size:%s" % (B, fmt_term(arg))
+                req2 = "the palette is sized by the header's used-colour count or by 2^bitCount (both bounded by the bit depth after validation)"
+                if okv(arg) or any(okv(r) for r in helper_returns(F, rp, nd["args"][0])):
+                    out.append(ok("R-INDEX", inst2, rp.loc(nd["id"]), rp.qn, req2, fmt_term(arg)))
+                else:
+                    out.append(bad("R-INDEX", inst2, rp.loc(nd["id"]), rp.qn, req2,
+                                   "sized by %s: nothing bounds it by the bit depth (the palette can come out longer than the depth allows)" % fmt_term(arg)))
     # Validate's own bound: usedColorMapEntries <= CalcMaxIndexedPaletteSize()
     v = F.fn(IH + "::Validate", nparams=0)
     eng2 = Engine(F, S)
@@ -49,6 +73,21 @@ def palette_bound(F, S):
         out.append(ok("R-INDEX", inst, v.loc(v.body), v.qn, "usedColorMapEntries <= 2^bitCount after validation", "refusal on every returning path"))
     else:
         out.append(bad("R-INDEX", inst, v.loc(v.body), v.qn, "usedColorMapEntries <= 2^bitCount after validation", "no such refusal"))
+    return out
+
+
+def helper_returns(F, fn, arg_id):
+    """Return value terms (in fn's vocabulary) of a repository helper called to produce the argument (multi-return helper)."""
+    from ..flow import substitute
+    nd = fn.n(fn.strip(arg_id))
+    out = []
+    if nd["k"] in CALLS:
+        for h in F.callees(nd):
+            if not h.cfg:
+                continue
+            sub = {("var", p["n"], p["d"]): fn.term(a) for p, a in zip(h.params, nd.get("args", []))}
+            for r in returns(h):
+                out.append(substitute(h.term(r["value"]), sub))
     return out
 
 
